@@ -77,7 +77,7 @@ fn ber_exp(x: f64, ccs: f64, random_bytes: [u8; 7]) -> bool {
     let shamt = usize::min(s, 63);
     let z = ((((approx_exp(r, ccs) as u128) << 1) - 1) >> shamt) as u64;
     let mut w = 0i16;
-    for (index, i) in (0..64).step_by(8).rev().enumerate() {
+    for (index, i) in (8..64).step_by(8).rev().enumerate() {
         let byte = random_bytes[index];
         w = (byte as i16) - (((z >> i) & 0xff) as i16);
         if w != 0 {
